@@ -1,5 +1,6 @@
 mod c11;
 mod c12;
+mod c13;
 mod c16;
 mod c17;
 mod extract;
@@ -20,6 +21,7 @@ fn main() {
         "extract" => extract::main(&args[1..]),
         "C11" => c11::main(&args[1..]),
         "C12" => c12::main(&args[1..]),
+        "C13" => c13::main(&args[1..]),
         "C16" => c16::main(&args[1..]),
         "C17" => c17::main(&args[1..]),
         o => {
